@@ -996,3 +996,143 @@ func c18EncodeAndWriteAtomic(c *Ctx, rule string) {
 		c.Unresolved(rule, fmt.Sprintf("(encode, write) pairs in the M* connection methods (found %d)", n))
 	}
 }
+
+// c18SettingsValidated (C18.W13 / C08.B10): a peer's SETTINGS are range-checked before they are applied.
+// RFC 7540 6.5.2 bounds SETTINGS_MAX_FRAME_SIZE to 16384..2^24-1 and the initial window to 2^31-1; the splitting loops
+// (writeHeaders, writeDataAndTrailer/awaitFlowControl) divide by these numbers: a frame size of 0 makes them loop for
+// ever on empty frames with the connection mutex held, 2^31 and more becomes a negative slice bound. Clause: in every
+// function that the M* connection types hand to SettingsFrame.ForeachSetting (a closure or a bound method taking a
+// Setting), each store of a value derived from the setting's Val into a connection field lies behind a call of
+// Setting.Valid() on that setting whose error leaves the function (the store is on the `err == nil` side).
+func c18SettingsValidated(c *Ctx, rule string) {
+	pkg := "pkg/module/http2"
+	n := 0
+	ord := ordCounter{}
+	var targets []*ssa.Function
+	seenT := map[*ssa.Function]bool{}
+	for _, fn := range c.PkgFuncs(pkg) {
+		if fn.Signature.Recv() == nil || !strings.HasPrefix(shortTypeName(fn.Signature.Recv().Type()), "M") {
+			continue
+		}
+		for _, cs := range callsIn(fn, false, func(cc *ssa.CallCommon) bool { return methodName(cc) == "ForeachSetting" }) {
+			args := cs.Instr.Common().Args
+			if len(args) == 0 {
+				continue
+			}
+			mc, ok := args[len(args)-1].(*ssa.MakeClosure)
+			if !ok {
+				c.Unresolved(rule, "the function handed to ForeachSetting at "+shortPos(c, cs.Instr.Pos()))
+				continue
+			}
+			t, _ := mc.Fn.(*ssa.Function)
+			if t != nil && strings.HasSuffix(t.Name(), "$bound") {
+				// bound method value sc.processSetting: resolve the method itself
+				name := strings.TrimSuffix(t.Name(), "$bound")
+				for _, f := range c.PkgFuncs(pkg) {
+					if f.Name() == name && f.Signature.Recv() != nil && len(f.Blocks) > 0 {
+						for _, p := range f.Params {
+							if strings.HasSuffix(p.Type().String(), "http2.Setting") {
+								t = f
+							}
+						}
+					}
+				}
+			}
+			if t != nil && !seenT[t] {
+				seenT[t] = true
+				targets = append(targets, t)
+			}
+		}
+	}
+	for _, t := range targets {
+		var sp *ssa.Parameter
+		for _, p := range t.Params {
+			if strings.HasSuffix(p.Type().String(), "http2.Setting") {
+				sp = p
+			}
+		}
+		if sp == nil {
+			c.Unresolved(rule, "the Setting parameter of "+t.Name())
+			continue
+		}
+		// Valid() calls on the setting
+		var valids []*ssa.Call
+		forEachInstr(t, false, func(_ *ssa.Function, in ssa.Instruction) {
+			if call, ok := in.(*ssa.Call); ok && methodName(call.Common()) == "Valid" && len(call.Common().Args) > 0 {
+				a := call.Common().Args[0]
+				if ld, isLd := a.(*ssa.UnOp); isLd {
+					a = ld.X // spilled value receiver
+				}
+				if a == ssa.Value(sp) || spilledFrom(a, sp) {
+					valids = append(valids, call)
+				}
+			}
+		})
+		derivesFromVal := func(v ssa.Value) bool {
+			for i := 0; i < 5; i++ {
+				switch x := v.(type) {
+				case *ssa.Convert:
+					v = x.X
+					continue
+				case *ssa.ChangeType:
+					v = x.X
+					continue
+				case *ssa.Field:
+					_, f, _, _ := fieldAddrInfo(x)
+					return f == "Val" && (x.X == ssa.Value(sp))
+				case *ssa.UnOp:
+					if fa, ok := x.X.(*ssa.FieldAddr); ok {
+						_, f, _, _ := fieldAddrInfo(fa)
+						return f == "Val" && spilledFrom(fa.X, sp)
+					}
+				}
+				return false
+			}
+			return false
+		}
+		forEachInstr(t, false, func(_ *ssa.Function, in ssa.Instruction) {
+			st, ok := in.(*ssa.Store)
+			if !ok || !derivesFromVal(st.Val) {
+				return
+			}
+			if _, _, _, isField := fieldAddrInfo(st.Addr); !isField {
+				return
+			}
+			n++
+			checked := false
+			for _, v := range valids {
+				if !instrDominates(v, st) {
+					continue
+				}
+				for _, g := range guardsAt(st.Block()) {
+					bo, ok := g.Cond.(*ssa.BinOp)
+					if !ok || bo.X != ssa.Value(v) || !isNilConst(bo.Y) {
+						continue
+					}
+					if (bo.Op == token.NEQ && !g.True) || (bo.Op == token.EQL && g.True) {
+						checked = true
+					}
+				}
+			}
+			_, fld, _, _ := fieldAddrInfo(st.Addr)
+			c.Check(rule, ord.next(t, "settings-validated:"+fld), st.Pos(), checked, "applied only after Setting.Valid() answered nil", "a value a peer announces in a SETTINGS frame is stored into "+fld+" without the range check of RFC 7540 6.5.2 (Setting.Valid): a max frame size of 0 makes the header and body writers loop for ever on empty frames with the connection mutex held, 2^31 or more becomes a negative slice bound - one frame from a peer wedges the worker")
+		})
+	}
+	if n < 4 {
+		c.Unresolved(rule, fmt.Sprintf("stores of a peer's setting value in the functions handed to ForeachSetting by the M* types (found %d)", n))
+	}
+}
+
+// spilledFrom: a is the local cell a by-value parameter was spilled into.
+func spilledFrom(a ssa.Value, p *ssa.Parameter) bool {
+	al, ok := a.(*ssa.Alloc)
+	if !ok {
+		return false
+	}
+	for _, r := range refs(al) {
+		if st, ok := r.(*ssa.Store); ok && st.Addr == ssa.Value(al) && st.Val == ssa.Value(p) {
+			return true
+		}
+	}
+	return false
+}
